@@ -226,32 +226,8 @@ def coverage(P, R, f):
                     construct=f'{label} class', nontrivial=False)
 
 
-def run(P, R, tier):
-    R.assume('S1: Arrow ListArray buffers [v0,o0,...,data]; array.offset/len describe the level-0 window only; null slots of fixed-width arrays hold arbitrary bytes')
-    R.assume('S2: coordinate index 2m is x_m, 2m+1 is y_m; S3: boxes are (x0, y0, x1, y1)')
-    kernel_rules(P, R, tier)
-    for qn in ('GeometryListArray.bounds', 'GeometryListArray.total_bounds', 'GeometryListArray.total_bounds_x', 'GeometryListArray.total_bounds_y'):
-        f_ = P.mods['spatialpandas.geometry.baselist'].funcs.get(qn)
-        if f_ is not None and any((lambda r: r and r[0] == 'func' and r[1].mod.name == BND)(P.resolve_call(f_, c_)) for c_ in astq.own_calls(f_)):
-            common.kernel_on_every_path(P, R, 'C13.b', f_, lambda g: g.mod.name == BND, 'the bounds kernel', 'the extent is answered by a shortcut instead of being computed from the coordinates of exactly this array\'s elements')
-    # C13.i (seed S11: `ufunc.reduceat(a, starts)` returns a[starts[k]] for an EMPTY segment, not the identity): a per-element reduction over
-    # offset-delimited segments must repair the rows of elements without vertices, which otherwise receive the next element's first vertex as their box
-    R.assume('S11: numpy ufunc.reduceat yields a[start] (not the reduction identity) for a segment of length 0')
-    for f_ in P.all_funcs():
-        if not f_.mod.name.startswith('spatialpandas.geometry') or isinstance(f_.node, ast.Lambda):
-            continue
-        ra = [c for c in astq.own_calls(f_) if isinstance(c.func, ast.Attribute) and c.func.attr == 'reduceat' and len(c.args) >= 2]
-        if not ra:
-            continue
-        txt = norm(f_.node)
-        repaired = any(isinstance(x, ast.Compare) and isinstance(x.ops[0], (ast.Eq, ast.LtE, ast.GtE)) and '[1:]' in norm(x) and '[:-1]' in norm(x) for x in ast.walk(f_.node)) \
-            or ('np.diff(' in txt and any(isinstance(x, ast.Compare) and 'diff' in norm(astq.expand(f_, x.left)) and norm(x.comparators[0]) == '0' for x in ast.walk(f_.node) if isinstance(x, ast.Compare)))
-        R.check(repaired, 'C13.i', f_, ra[0], 'rows of elements without vertices are repaired after reduceat (empty segments yield a[start])',
-                f'`{norm(ra[0])}`: an element without vertices (empty, not missing) that is followed by a non-empty one has a segment of length 0, for which reduceat returns the next '
-                'element\'s first coordinate: the empty element gets a finite degenerate box instead of NaN, enters total_bounds / the spatial index and is selected by cx',
-                construct=f'{f_.qualname}: reduceat over offset segments')
-    common.no_fastmath(P, R, 'C13.h', ['spatialpandas.geometry._algorithms.bounds'])
-    common.nan_buffers(P, R, 'C13.g', ['spatialpandas.geometry._algorithms.bounds', 'spatialpandas.geometry.basefixed', 'spatialpandas.geometry.baselist', 'spatialpandas.geometry.base', 'spatialpandas.spatialindex.rtree'], floor=2)
+def array_extents(P, R):
+    """E-UNITS part: bounds / total_bounds* of every array kind are computed from the values of the array's own window, in box layout."""
     I = Interp(P)
     seen = set()
     n_entries = 0
@@ -320,6 +296,35 @@ def run(P, R, tier):
             construct='GeometryFixedArray.flat_values bounds')
     geom.stats(R, I)
     R.floor('C13', 'entry points typed', n_entries, 26)
+
+
+def run(P, R, tier):
+    R.assume('S1: Arrow ListArray buffers [v0,o0,...,data]; array.offset/len describe the level-0 window only; null slots of fixed-width arrays hold arbitrary bytes')
+    R.assume('S2: coordinate index 2m is x_m, 2m+1 is y_m; S3: boxes are (x0, y0, x1, y1)')
+    kernel_rules(P, R, tier)
+    for qn in ('GeometryListArray.bounds', 'GeometryListArray.total_bounds', 'GeometryListArray.total_bounds_x', 'GeometryListArray.total_bounds_y'):
+        f_ = P.mods['spatialpandas.geometry.baselist'].funcs.get(qn)
+        if f_ is not None and any((lambda r: r and r[0] == 'func' and r[1].mod.name == BND)(P.resolve_call(f_, c_)) for c_ in astq.own_calls(f_)):
+            common.kernel_on_every_path(P, R, 'C13.b', f_, lambda g: g.mod.name == BND, 'the bounds kernel', 'the extent is answered by a shortcut instead of being computed from the coordinates of exactly this array\'s elements')
+    # C13.i (seed S11: `ufunc.reduceat(a, starts)` returns a[starts[k]] for an EMPTY segment, not the identity): a per-element reduction over
+    # offset-delimited segments must repair the rows of elements without vertices, which otherwise receive the next element's first vertex as their box
+    R.assume('S11: numpy ufunc.reduceat yields a[start] (not the reduction identity) for a segment of length 0')
+    for f_ in P.all_funcs():
+        if not f_.mod.name.startswith('spatialpandas.geometry') or isinstance(f_.node, ast.Lambda):
+            continue
+        ra = [c for c in astq.own_calls(f_) if isinstance(c.func, ast.Attribute) and c.func.attr == 'reduceat' and len(c.args) >= 2]
+        if not ra:
+            continue
+        txt = norm(f_.node)
+        repaired = any(isinstance(x, ast.Compare) and isinstance(x.ops[0], (ast.Eq, ast.LtE, ast.GtE)) and '[1:]' in norm(x) and '[:-1]' in norm(x) for x in ast.walk(f_.node)) \
+            or ('np.diff(' in txt and any(isinstance(x, ast.Compare) and 'diff' in norm(astq.expand(f_, x.left)) and norm(x.comparators[0]) == '0' for x in ast.walk(f_.node) if isinstance(x, ast.Compare)))
+        R.check(repaired, 'C13.i', f_, ra[0], 'rows of elements without vertices are repaired after reduceat (empty segments yield a[start])',
+                f'`{norm(ra[0])}`: an element without vertices (empty, not missing) that is followed by a non-empty one has a segment of length 0, for which reduceat returns the next '
+                'element\'s first coordinate: the empty element gets a finite degenerate box instead of NaN, enters total_bounds / the spatial index and is selected by cx',
+                construct=f'{f_.qualname}: reduceat over offset segments')
+    common.no_fastmath(P, R, 'C13.h', ['spatialpandas.geometry._algorithms.bounds'])
+    common.nan_buffers(P, R, 'C13.g', ['spatialpandas.geometry._algorithms.bounds', 'spatialpandas.geometry.basefixed', 'spatialpandas.geometry.baselist', 'spatialpandas.geometry.base', 'spatialpandas.spatialindex.rtree'], floor=2)
+    array_extents(P, R)
     fixed_taint(P, R, 'C13.c', ('bounds', 'total_bounds', 'total_bounds_x', 'total_bounds_y'))
     delegations(P, R)
 
